@@ -4,6 +4,7 @@ package racepass
 import (
 	"fmt"
 	"os"
+	"os/exec"
 	"path/filepath"
 	"strings"
 	"sync"
@@ -176,11 +177,54 @@ func c18(deadline time.Time) (int, int) {
 		}
 		return fmt.Sprintf("%x|%v|%v|%v|%v|%d", c.Code, c.Names, c.Varnames, c.Freevars, c.Cellvars, len(c.Consts))
 	}
+	// cold start: the very first compilations of this process happen on 16 goroutines released
+	// together, before anything was compiled sequentially - state that the packages build
+	// lazily on first use (tables, matchers, caches) is only ever written then. Several fresh
+	// processes are started for it (VRACE_COLD_CHILD), because a process is cold only once.
+	coldSrcs := append([]string{"x = 0x1f + 0o17 + 0b11 + 12 + 1.5e3 + 2j\ns = 'a\\n' b'\\x00' r'\\d' \"\"\"t\"\"\"\n@d\nclass K(B, m=1):\n    def f(self, *a, k=1, **kw) -> 0:\n        global g\n        return [i for i in a if i] or {k: 1} or {k} or (yield)\nwith a as b, c: pass\ntry:\n    import m.n as o\nexcept E as e: raise\nfinally: del x\nwhile x: break\nlambda *, k: k\nx[1:2, ...] **= not -x if x else ~x\n"}, srcs...)
+	cold := make([][]string, 16)
+	{
+		var wg sync.WaitGroup
+		start := make(chan struct{})
+		for g := 0; g < 16; g++ {
+			wg.Add(1)
+			go func(g int) {
+				defer wg.Done()
+				<-start
+				for _, s := range coldSrcs[:1+g%3] {
+					cold[g] = append(cold[g], dump(s))
+				}
+			}(g)
+		}
+		close(start)
+		wg.Wait()
+	}
+	for g := range cold {
+		for k, d := range cold[g] {
+			if want := dump(coldSrcs[k]); d != want {
+				fmt.Fprintf(os.Stderr, "WARNING: DATA RACE (observed as a wrong result): program %d compiled concurrently as the first compilation of the process differs from its sequential compilation\n", k)
+				os.Exit(66)
+			}
+		}
+	}
+	if os.Getenv("VRACE_COLD_CHILD") != "" {
+		return 16, 1
+	}
+	coldStarts := 1
+	for k := 0; k < 12 && time.Now().Before(deadline); k++ {
+		cmd := exec.Command(os.Args[0], "C18", "--seconds", "1")
+		cmd.Env = append(os.Environ(), "VRACE_COLD_CHILD=1")
+		cmd.Stderr = os.Stderr
+		if err := cmd.Run(); err != nil {
+			os.Exit(66)
+		}
+		coldStarts++
+	}
 	base := make([]string, len(srcs))
 	for i, s := range srcs {
 		base[i] = dump(s)
 	}
-	runs := 0
+	runs := 16 * coldStarts
 	for round := 0; round == 0 || time.Now().Before(deadline); round++ {
 		var wg sync.WaitGroup
 		var mu sync.Mutex
